@@ -40,7 +40,7 @@ class LinExpr:
 
     def vc_getattr(self, it, name):
         if name == "x" and self.var is not None:
-            if not getattr(self.var_model, "solved", False):
+            if not getattr(self.var_model, "has_solution", False):
                 return None
             return SV(self.var)          # the solver's value of this unknown (integral by var_type)
         raise Unsupported("mip expression attribute " + name)
@@ -85,6 +85,8 @@ class Model:
             return self.attrs[name]
         if name == "objective":
             return self.objective
+        if name == "num_solutions":
+            return getattr(self, "num_solutions", 0)
         raise Unsupported("mip.Model." + name)
 
     def vc_setattr(self, it, name, val):
@@ -110,14 +112,23 @@ class Model:
 
     def optimize(self, it, a, k):
         it.trust("ASSUMED contract of python-mip/CBC (A3): status OPTIMAL => integral unknowns satisfying every constraint and minimising the objective "
-                 "over all assignments that do; any other status: nothing is known")
+                 "over all assignments that do; status FEASIBLE => unknowns satisfying every constraint (num_solutions >= 1), nothing about the objective; "
+                 "any other status: no values (num_solutions = 0)")
         lbs = [v >= term_of(lb) for v, lb in getattr(self, "bounds", []) if lb is not None]
         feasible = z3.And(self.constraints + lbs) if (self.constraints or lbs) else z3.BoolVal(True)
-        d = it.decide([feasible, z3.BoolVal(True)])
+        d = it.decide([feasible, feasible, z3.BoolVal(True)])
         self.status_formula = feasible
-        if d == 1:
-            self.solved = False
+        self.num_solutions = 0
+        if d == 2:
+            self.solved = self.has_solution = False          # INFEASIBLE / NO_SOLUTION_FOUND / ERROR ...: no values
             return "NOT-OPTIMAL"
+        n = L.fresh("num_solutions", L.IntS)
+        it.assume(n >= 1)
+        self.num_solutions = SV(n)
+        self.has_solution = True
+        if d == 1:
+            self.solved = False                              # FEASIBLE: an incumbent that satisfies the constraints; nothing is known about its objective
+            return "FEASIBLE"
         self.solved = True
         g = getattr(it, "ghost", None) or {}
         hook = g.get("optimality_instance")
